@@ -9,8 +9,9 @@
       all reads of plain fields that some method writes, happen inside the
       critical section of the writer lock [K]; the lock is not released while
       such accesses are still to come; outside it an operation may at most load
-      the published pointer, once; the store that publishes a new object is the
-      last access to guarded state of its operation;
+      the published pointer, once; an operation publishes a new object at most
+      once and afterwards only reads / writes plain fields, still inside the
+      writer lock;
     - [wf_skel K sk := wf_locks sk && wf_cow K sk] — the check the generated
       [Gen/RepoSkel.v] has to pass ([Example repo_skel_wf]);
     - [skel_cex] — what to print when it does not pass;
@@ -57,11 +58,15 @@ Definition is_unlock_K (K : lock) (e : event) : bool :=
 Definition is_shared_read (wv : list var) (e : event) : bool :=
   match e with ERead v => mem_var v wv | _ => false end.
 
+Definition is_plain_access (e : event) : bool :=
+  match e with ERead _ | EWrite _ => true | _ => false end.
+
 (** the discipline, per point of a path ([pt] = (executed prefix, rest)):
     (c2) the writer lock is not released while accesses to guarded state are still to come;
     (c3) an access to guarded state outside the writer lock is the only one of its operation;
     (c4) writes and stores happen inside the writer lock;
-    (c5) the publishing store is the last access to guarded state of its operation;
+    (c5) an operation publishes at most once, and after the publishing store it touches guarded
+         state only by reading / writing plain fields inside the writer lock (no further load);
     (c6) plain fields that some method writes are read inside the writer lock only
          (outside it only the published pointer may be loaded). *)
 Definition cow_point_ok (K : lock) (wv : list var) (path : list event) (pt : list event * list event) : bool :=
@@ -72,7 +77,8 @@ Definition cow_point_ok (K : lock) (wv : list var) (path : list event) (pt : lis
       (negb (is_unlock_K K e) || negb (existsb (sensitive wv) rest)) &&
       (negb (sensitive wv e) || ink || (count_sens wv path =? 1)) &&
       (negb (is_write_ev e) || ink) &&
-      (negb (is_store_ev e) || negb (existsb (sensitive wv) rest)) &&
+      (negb (is_store_ev e) || negb (existsb is_store_ev rest)) &&
+      (negb (existsb is_store_ev (fst pt) && sensitive wv e) || (ink && is_plain_access e)) &&
       (negb (is_shared_read wv e) || ink)
   end.
 
@@ -131,8 +137,8 @@ Fixpoint firstn_cex (n : nat) (l : list cex) : list cex :=
     pairwise unrelated path expressions (identified by numbers), rules
     identified by (source, id) with a definition hash.  Transcribed from
     repository_impl.go + radixtree (values of a node in insertion order; a node
-    only takes values of one source; deleting removes every value of the node
-    that is the SameAs the rule and fails if there is none). *)
+    only takes values of one source; deleting a rule removes its own route
+    from the node and fails if it is not there). *)
 Record rrule := { rr_id : nat; rr_src : nat; rr_hash : nat; rr_paths : list nat }.
 
 Record rstate := { rs_known : list rrule; rs_index : list (nat * list rrule) }.
@@ -170,11 +176,23 @@ Definition tree_add (ix : list (nat * list rrule)) (p : nat) (r : rrule) : optio
   | v :: _ => if rr_src v =? rr_src r then Some (idx_set ix p (vs ++ [r])) else None
   end.
 
-(** tree.Delete(path, SameAs r) *)
+Definition rrule_eqb (a b : rrule) : bool :=
+  equal_to a b && list_eqb Nat.eqb (rr_paths a) (rr_paths b).
+
+Fixpoint remove_first (f : rrule -> bool) (l : list rrule) : option (list rrule) :=
+  match l with
+  | [] => None
+  | v :: r => if f v then Some r else option_map (cons v) (remove_first f r)
+  end.
+
+(** tree.Delete(path, the very route of rule r): removes exactly one value of the node (the route object
+    of that rule; rule objects that are equal in every respect are interchangeable here) and fails if
+    there is none.  (Since fix 003095f; before it every value that is the SameAs r was removed.) *)
 Definition tree_del (ix : list (nat * list rrule)) (p : nat) (r : rrule) : option (list (nat * list rrule)) :=
-  let vs := idx_get ix p in
-  let vs' := filter (fun v => negb (same_as v r)) vs in
-  if length vs' =? length vs then None else Some (idx_set ix p vs').
+  match remove_first (rrule_eqb r) (idx_get ix p) with
+  | Some vs' => Some (idx_set ix p vs')
+  | None => None
+  end.
 
 Fixpoint add_paths ix (r : rrule) (ps : list nat) : option (list (nat * list rrule)) :=
   match ps with
@@ -199,9 +217,6 @@ Fixpoint del_rules ix (rs : list rrule) : option (list (nat * list rrule)) :=
   | [] => Some ix
   | r :: rest => match del_paths ix r (rr_paths r) with Some ix' => del_rules ix' rest | None => None end
   end.
-
-Definition rrule_eqb (a b : rrule) : bool :=
-  equal_to a b && list_eqb Nat.eqb (rr_paths a) (rr_paths b).
 
 (** [def]: the repository was built with a default rule *)
 Definition repo_apply (def : bool) (s : rstate) (o : rop) : rstate * rres :=
